@@ -1,5 +1,7 @@
 (* Suite "period" (C15): requests evaluated by the model for the correspondence check.
      cal-date <y> <m> <d>      every calendar observable of one date (see [show_cal])
+     cal-basic <y> <m> <d>     the observables of cal-date that cannot panic (used for the dates whose cal-date line
+                               carries a known finding, so that the rest of the line is still compared)
      cal-plus <y> <m> <d> <n>  Date.PlusDays(n)
      period-pattern <hex>      period.NewPeriodFromPatternString *)
 From Klog Require Import Base.Prelude Model.Calendar Model.Show Model.Period.
@@ -26,12 +28,27 @@ Definition show_cal (c : cdate) : bytes :=
          ++ [show_tok dec (day_hash c)]
          ++ map (fun k => show_tok dec (hash_of k c)) kinds).
 
+(* ok <weekday> <iso year> <iso week> <quarter> <Hash() of day week month quarter year> *)
+Definition show_cal_basic (c : cdate) : bytes :=
+  words ([b!"ok"; dec (weekday c); dec (fst (iso_week c)); dec (snd (iso_week c)); dec (quarter c)]
+         ++ [show_tok dec (day_hash c)]
+         ++ map (fun k => show_tok dec (hash_of k c)) kinds).
+
 Definition suite_period (cmd : bytes) (args : list bytes) : option bytes :=
   if bytes_eqb cmd b!"cal-date" then
     match args with
     | [y; m; d] =>
       Some (match new_date (parse_int y) (parse_int m) (parse_int d) with
             | Some c => show_cal c
+            | None => b!"err"
+            end)
+    | _ => None
+    end
+  else if bytes_eqb cmd b!"cal-basic" then
+    match args with
+    | [y; m; d] =>
+      Some (match new_date (parse_int y) (parse_int m) (parse_int d) with
+            | Some c => show_cal_basic c
             | None => b!"err"
             end)
     | _ => None
